@@ -295,6 +295,23 @@ theorem wf_action_pairs (sp : ScpdSpec) (vars : List VarSpec) (acts : List Actio
   rw [hcomp]
   exact distinctPairs_nodup _ hd
 
+/-- **Lookup by name / id finds every object.** With distinct variable names, action names and
+    service ids (what `wf` asks), `state_variable(v.name)`, `action(a.name)` and `service_id(s.id)` return
+    exactly `v`, `a`, `s`, and the keys of the name-keyed dicts are the names in document order. -/
+theorem lookups_find_everything (depth : Nat) (info : List (Option Str)) (url : Str) (icons : List IconM)
+    (svcs : List (SvcM F)) (emb : List (DevM F)) (hid : (svcs.map (·.serviceId)).Nodup) :
+    (rowOf depth info url icons svcs emb).svcById = (List.range svcs.length).map some
+    ∧ ∀ s ∈ svcs, ((s.vars.map (·.name)).Nodup → (lookOf s).varByName = (List.range s.vars.length).map some)
+        ∧ ((s.actions.map (·.name)).Nodup → (lookOf s).actByName = (List.range s.actions.length).map some)
+        ∧ (lookOf s).varKeys = s.vars.map (·.name) ∧ (lookOf s).actKeys = s.actions.map (·.name) := by
+  refine ⟨?_, fun s _ => ⟨fun h => ?_, fun h => ?_, rfl, rfl⟩⟩
+  · have := findIdx_self (fun x : SvcM F => x.serviceId) svcs [] (by simpa using hid)
+    simpa [rowOf, List.range_eq_range'] using this
+  · have := findIdx_self (fun x : VarM F => x.name) s.vars [] (by simpa using h)
+    simpa [lookOf, List.range_eq_range'] using this
+  · have := findIdx_self (fun x : ActM => x.name) s.actions [] (by simpa using h)
+    simpa [lookOf, List.range_eq_range'] using this
+
 /-- **send_events_spec.** evented: the attribute wins over the element; only the literal `yes` is true -/
 theorem send_events_spec (v : VarSpec) :
     sendEventsOf v = true ↔
